@@ -1,7 +1,9 @@
 package main
 
 import (
+	goruntime "runtime"
 	"strconv"
+	"time"
 
 	rt "github.com/arnodel/golua/runtime"
 )
@@ -35,4 +37,16 @@ func registerResHelper(r *rt.Runtime, addEvent func(ev []interface{})) {
 	}, "newres", 2, false)
 	fn.SolemnlyDeclareCompliance(rt.ComplyCpuSafe | rt.ComplyMemSafe | rt.ComplyIoSafe | rt.ComplyTimeSafe)
 	r.SetEnv(r.GlobalEnv(), "newres", rt.FunctionValue(fn))
+
+	// gogc(): run the Go collector and give its finaliser goroutine time to hand every unreachable value over to
+	// the runtime's pools, WITHOUT running the pending Lua finalisers (the runtime does that at its next step).
+	gogc := rt.NewGoFunction(func(t *rt.Thread, c *rt.GoCont) (rt.Cont, error) {
+		for i := 0; i < 2; i++ {
+			goruntime.GC()
+			time.Sleep(1500 * time.Microsecond)
+		}
+		return c.Next(), nil
+	}, "gogc", 0, false)
+	gogc.SolemnlyDeclareCompliance(rt.ComplyCpuSafe | rt.ComplyMemSafe | rt.ComplyIoSafe | rt.ComplyTimeSafe)
+	r.SetEnv(r.GlobalEnv(), "gogc", rt.FunctionValue(gogc))
 }
